@@ -98,12 +98,12 @@ CLAIMED = {
  'C15': dict(
    technique="schedule-controlled concurrency testing: the harness owns the schedule through the lock shim (hook); systematic exploration of all schedules up to a preemption bound for curated operation pairs plus proptest-generated operations and schedules; oracle: no state in which every unfinished thread waits on a non-timed lock request, and no non-timed wait for the lock of an ancestor element while holding a descendant's lock",
    text="Two or three controlled threads run operations of a 36-operation catalogue on a fixture whose roles place the operands as same / parent-child / ancestor-descendant / referrer-target / unrelated / other model. Every lock request is a scheduling point; timed waits succeed or time out as the schedule says. A deadlock is reported with the lock-request sites (file:function#ordinal) of the cycle; in addition every blocking request for an ancestor's lock made while a descendant's lock is held is reported (half of a lock-order inversion against the documented top-down order), whether or not the partner thread is in the case.",
-   note="The crate uses blocking requests at about 130 sites by design (documented try-lock discipline covers only the parent walk); those sites are recorded once in KF-C15-1 and a new site, or a new upward wait, is a violation. The logical lock table mirrors parking_lot's writer preference; wake-up order is over-approximated.",
+   note="The crate blocks at 160 call sites by design (the documented try-lock discipline covers only the parent walk) and deadlocks in many combinations; those are one recorded finding, KF-C15-1, described by four lists: every blocking read()/write() call of the pinned sources (computed from the sources: a try-lock that becomes blocking, or a new lock call, is a new wait site), the holding sites seen in deadlock cycles (a lock newly held across a blocking request is new), the sites of read requests for a lock the thread already holds for reading, and the five sites that block on an ancestor's lock. A deadlock outside these lists is a violation. The logical lock table mirrors parking_lot's writer preference; wake-up order is over-approximated.",
    ref="DESIGN.md section 3 C15, section 7"),
  'C16': dict(
    technique="schedule-controlled linearizability testing: curated operation pairs x all schedules up to a preemption bound + proptest-generated deep schedules; oracle: results and id-free final state (per-file text, tree, membership, path index, reverse reference map, reference report of both models) equal those of SOME sequential order, invariants hold afterwards",
    text="For every explored schedule of two concurrent operations the final observable state and the per-operation results are compared with both sequential orders run on fresh fixtures (operations that returned ParentElementLocked are left out: they must have had no effect), and the tree / path / reference / membership invariants of C03-C05/C10 are evaluated on the result.",
-   note="Multi-step writers (remove_file, set_item_name, remove_from_file) and the listed pairs are not atomic in the pinned code; they are recorded by operation-name pair in KF-C16-1 (a pair not listed is a violation). The pair set explored is fixed, so the list is finite. Iterator operations observe a moving model by design and are not judged.",
+   note="Multi-step writers are not atomic in the pinned code; recorded in KF-C16-1 as (operation-name pair, kind of failure) entries - kind = broken invariant class (paths / refs / membership / tree), a final state no order yields, or only the results - plus three writers (remove_file, set_item_name, remove_from_file) that are not atomic against anything. A pair or a kind that is not listed is a violation. The explored pairs are a fixed curated set, so the list is finite. Iterator operations observe a moving model by design and are not judged.",
    ref="DESIGN.md section 3 C16, section 7"),
 }
 NA_REASON = "check not built yet (construction in progress, see DESIGN.md section 6)"
